@@ -1,10 +1,13 @@
 package checks
 
 import (
+	"context"
 	"fmt"
 	"sort"
 	"strings"
 
+	"github.com/sdcio/data-server/pkg/config"
+	"github.com/sdcio/data-server/pkg/datastore/target"
 	sdcpb "github.com/sdcio/sdc-protos/sdcpb"
 
 	"verifharness/internal/core"
@@ -15,7 +18,37 @@ import (
 // C10: all southbound encodings describe the same change.
 
 type c10 struct {
-	h *hist
+	h     *hist
+	wires []fixture.Forwarder
+}
+
+// gnmiForwarder: a production gNMI target (target.New: gnmic client, gRPC) with the given encoding, connected to a gNMI
+// device on loopback. The device starts from the configuration before the transaction and applies the SetRequest it
+// receives; what it holds afterwards is what that encoding denotes on the wire.
+func gnmiForwarder(enc string) (fixture.Forwarder, error) {
+	dev, err := fixture.NewGNMIDevice()
+	if err != nil {
+		return fixture.Forwarder{}, err
+	}
+	sbi := &config.SBI{Type: "gnmi", Address: "127.0.0.1", Port: dev.Port(), GnmiOptions: &config.SBIGnmiOptions{Encoding: enc}}
+	tg, err := target.New(context.Background(), "wire-"+enc, sbi, nil)
+	if err != nil {
+		dev.Close()
+		return fixture.Forwarder{}, err
+	}
+	return fixture.Forwarder{Name: "gnmi/" + enc, Fn: func(ctx context.Context, before map[string]string, src target.TargetSource) (map[string]string, string, error) {
+		dev.SetConfig(before)
+		mark := dev.NumSets()
+		_, err := tg.Set(ctx, src)
+		desc := ""
+		for _, st := range dev.SetsSince(mark) {
+			desc += fixture.DescribeSet(st.Req)
+			if st.DecodeErr != "" {
+				desc += " [not understood by the device: " + st.DecodeErr + "]"
+			}
+		}
+		return dev.Snapshot(), desc, err
+	}}, nil
 }
 
 func init() { core.Register(&c10{}) }
@@ -46,6 +79,13 @@ func (c *c10) Setup(w *core.Worker) error {
 		return err
 	}
 	c.h = &hist{env: env, owners: []string{"oa", "ob", "oc", "od"}}
+	for _, enc := range []string{"proto", "json", "json_ietf"} {
+		f, err := gnmiForwarder(enc)
+		if err != nil {
+			return fmt.Errorf("gNMI wire fixture (%s): %v", enc, err)
+		}
+		c.wires = append(c.wires, f)
+	}
 	return nil
 }
 
@@ -144,6 +184,7 @@ func (c *c10) RunCase(w *core.Worker, idx int, seed uint64, res *core.CaseResult
 	c.h.noOrphan = strings.Contains(poolName, "choice")
 	run := c.h.start(rng, res, true, true)
 	defer run.close()
+	run.ds.Dev.Forward = c.wires
 	res.Tracef("pool=%s", poolName)
 	steps := 8
 	if w.Tier == "thorough" {
@@ -223,6 +264,29 @@ func (c *c10) judge(res *core.CaseResult, where string, rec *fixture.SetRecord) 
 	want := applyChange(rec.Before, pdels, pw)
 	payload := fixture.PayloadKey(rec.Updates, rec.Deletes)
 
+	// the production gNMI target in each encoding: what a device at the far end of the wire holds afterwards
+	for _, wr := range rec.Wire {
+		if wr.Err != nil {
+			res.Violate("C10/gnmi-wire/set-fails", "%s: %s: %v\n  proto: %s\n  on the wire: %s", where, wr.Name, wr.Err, payload, wr.Desc)
+			continue
+		}
+		got := map[string]string{}
+		for k, v := range wr.After {
+			if v == "true" && emptyLeaves[schemaPathOf(k)] {
+				v = "EMPTY"
+			}
+			got[k] = v
+		}
+		got = normalize(got)
+		if d := fixture.MapDiff(want, got); d != "" {
+			key := "C10/gnmi-wire-denotes-different-change"
+			if onlyPresenceMarkersMissing(want, got) {
+				key = "C10/json-omits-presence-container-whose-children-are-all-removed"
+			}
+			res.Violate(key, "%s: %s: the device ends up with a different configuration than the proto view denotes: %s\n  proto: %s\n  on the wire: %s", where, wr.Name, d, payload, wr.Desc)
+		}
+		res.Count("gnmi_wire_requests_compared", 1)
+	}
 	// JSON / JSON_IETF (onlyNewOrUpdated): the write set
 	for name, doc := range map[string]string{"JSON": v.JSON[true], "JSON_IETF": v.JSONIETF[true]} {
 		leaves, prefixes, err := model.DecodeJSON([]byte(doc), nil)
